@@ -29,6 +29,15 @@ func (cw *c02World) tag(host string) float64 {
 
 // idClaim: what an object says its id is.
 func (cw *c02World) idClaim(name string, self int) (string, bool) {
+	id, has := cw.idClaimHTTPS(name, self)
+	// an id need not be an https URL to name a host
+	if has && (self < 0 || verifrt.Param("servedschemes", 0) == 1) && verifrt.Choice(name+"-scheme", 2) == 1 {
+		id = "http" + id[len("https"):]
+	}
+	return id, has
+}
+
+func (cw *c02World) idClaimHTTPS(name string, self int) (string, bool) {
 	extra := 3
 	if self < 0 {
 		extra = 4 // symbolic digits only in embedded objects (served bodies go through encoding/json natively)
